@@ -113,6 +113,18 @@ add("C18", "exploration",
     "Only serde-lexpr's Deserializer is under test; visitors come from serde_derive and std.",
     "DESIGN.md section 4/C18", engine="proptest-harness")
 
+add("C09", "exploration",
+    "generated macro invocations compiled by rustc and compared at run time with the parser and with a constructor-built model (batched compilation and batched shrinking)",
+    "Exploration over programs: model trees over the documented macro syntax are rendered as sexp!(...) invocations, one per source line of a generated crate that is compiled against /repo's working tree; each invocation's value is compared with lexpr::from_str of the equivalent text and with a model value built from plain constructors. Compile errors are attributed to invocations by line (a violation of that invocation), the offending lines are removed and the batch recompiled; failing trees are shrunk in batches. Punctuation symbols are placed first, in the middle, last and after the dot; dotted tails are atoms, lists, dotted lists and unquotes.",
+    "Cannot explore at the rate of the other checks (one rustc run per batch); S-expressions that Rust tokenisation cannot express are excluded by construction and counted.",
+    "DESIGN.md section 4/C09", engine="rustc-batch")
+
+add("C16", "exploration",
+    "child-process size sweep: every list-walking operation at 2*10^5..4*10^6 (10^7) elements on a 2 MiB thread stack, results verified against a model",
+    "Exploration: each case is one child process running one public operation on a list of a log-uniformly drawn length, on a thread with an explicit 2 MiB stack, in the optimised profile without debug assertions. The child verifies what the operation returned (length, last element, printed text, equality verdict), so doing nothing fails too. Signal death is a violation with signature op=<operation>.",
+    "Shown for the sampled lengths on this platform and optimisation level; frame sizes and tail-call elimination are compiler artefacts (e.g. the derived PartialEq survives because it is compiled to a loop).",
+    "DESIGN.md section 4/C16", engine="proptest-harness")
+
 NOT_YET = {}
 
 def main():
@@ -155,7 +167,9 @@ def main():
             "add_only": True,
         },
         "engines": [
-            {"name": "proptest-harness", "path": "/verif/harness", "serves_properties": sorted(CHECKS.keys()),
+            {"name": "rustc-batch", "path": "/verif/c09", "serves_properties": ["C09"],
+             "kind_free_text": "generated crate of sexp! invocations compiled by cargo/rustc against /repo's working tree; orchestrated by the vp binary (harness/src/props/c09.rs)"},
+            {"name": "proptest-harness", "path": "/verif/harness", "serves_properties": sorted(k for k in CHECKS.keys() if k != "C09"),
              "kind_free_text": "Rust binary `vp` (proptest 1.11 TestRunner with fixed seeds, shrinking, rayon-parallel exhaustive enumerators, child processes for stack/abort observation); driver /verif/check builds it against /repo's working tree in two feature configurations and merges evidence"},
         ],
         "checks": checks,
